@@ -74,7 +74,7 @@ def _worker_init(prop, scratch, quiet):
 
 def _run_chunk(prop, base_seed, start, count, opts):
     mod = _WORKER["mod"]
-    faulthandler.dump_traceback_later(opts.get("chunk_timeout", 600), exit=True)
+    faulthandler.dump_traceback_later(opts.get("chunk_timeout", 300), exit=True)
     agg = {
         "runs": 0, "nontrivial": 0, "digests": [], "state_sigs": [], "probes": Counter(), "faults": Counter(),
         "steps": 0, "sim_ns": 0, "switches": 0, "violations": [], "samples": [], "harness_errors": [], "extra": Counter(),
@@ -208,6 +208,67 @@ def run_batch(prop, tier, seed, runs, procs, wall_cap, chunk=50, opts=None, quie
     return total
 
 
+def fork_call(fn, timeout=60.0):
+    """Run fn() in a forked child in its own process group; kill the whole group on timeout.
+    Returns ("ok", value) | ("err", traceback text) | ("timeout", None) | ("died", wait status)."""
+    import pickle
+    import select
+    import signal
+    import traceback
+
+    r, w = os.pipe()
+    sys.stdout.flush()
+    pid = os.fork()
+    if pid == 0:
+        code = 0
+        try:
+            os.setsid()
+            os.close(r)
+            try:
+                data = pickle.dumps(("ok", fn()))
+            except BaseException:  # noqa: BLE001
+                data = pickle.dumps(("err", traceback.format_exc()[-3000:]))
+            with os.fdopen(w, "wb") as f:
+                f.write(data)
+        except BaseException:  # noqa: BLE001
+            code = 3
+        finally:
+            os._exit(code)
+    os.close(w)
+    chunks = []
+    deadline = time.time() + timeout
+    timed_out = False
+    try:
+        while True:
+            left = deadline - time.time()
+            if left <= 0:
+                timed_out = True
+                break
+            rl, _, _ = select.select([r], [], [], min(left, 2.0))
+            if rl:
+                b = os.read(r, 1 << 20)
+                if not b:
+                    break
+                chunks.append(b)
+    finally:
+        os.close(r)
+    if timed_out:
+        try:
+            os.killpg(pid, signal.SIGKILL)
+        except Exception:  # noqa: BLE001
+            pass
+        try:
+            os.kill(pid, signal.SIGKILL)
+        except Exception:  # noqa: BLE001
+            pass
+        os.waitpid(pid, 0)
+        return ("timeout", None)
+    _, status = os.waitpid(pid, 0)
+    if not chunks:
+        return ("died", status)
+    return pickle.loads(b"".join(chunks))
+
+
 def write_replay(prop, seed, m, hashseed=None):
     rdir = os.environ.get("VERIF_REPLAY_DIR") or os.path.join(VERIF, "replays")
     os.makedirs(rdir, exist_ok=True)
@@ -289,7 +350,18 @@ def triage(prop, total, minimise_budget=45.0, max_reports=6):
                     mod.worker_init(os.getcwd())
                 return minimise(mod, v["spec"], v["seed"], v["violation"]["clause"], budget_s=minimise_budget)
 
-            m = in_scratch(work)
+            import signal
+
+            def _alarm(signum, frame):
+                raise HarnessError("minimisation did not finish within its wall-clock guard (a run hangs outside the simulator's step accounting?)")
+
+            old_handler = signal.signal(signal.SIGALRM, _alarm)
+            signal.alarm(int(minimise_budget * 6) + 120)
+            try:
+                m = in_scratch(work)
+            finally:
+                signal.alarm(0)
+                signal.signal(signal.SIGALRM, old_handler)
             if m is None:
                 total["harness_errors"].append({"run": v["run"], "seed": v["seed"],
                                                 "error": f"violation {v['violation']['signature']} did not reproduce on re-run"})
